@@ -48,6 +48,30 @@ func expandFacts(c *Ctx, in []fact, depth int) []fact {
 			continue
 		}
 		out = append(out, f)
+		if phi, ok := f.cond.(*ssa.Phi); ok && depth <= 4 {
+			// a && b / a || b computed as a value: when only one incoming edge can carry the known truth
+			// value, control came that way, so what dominates that edge holds as well
+			var live []int
+			for i, e := range phi.Edges {
+				if k, isK := constBool(e); isK && k != f.truth {
+					continue
+				}
+				live = append(live, i)
+			}
+			if len(live) == 1 {
+				i := live[0]
+				pred := phi.Block().Preds[i]
+				sub := domFacts(f.fr, pred)
+				if iff, isIf := pred.Instrs[len(pred.Instrs)-1].(*ssa.If); isIf && pred.Succs[0] != pred.Succs[1] {
+					sub = append(sub, fact{iff.Cond, pred.Succs[0] == phi.Block(), f.fr})
+				}
+				if _, isK := constBool(phi.Edges[i]); !isK {
+					sub = append(sub, fact{phi.Edges[i], f.truth, f.fr})
+				}
+				out = append(out, expandFacts(c, sub, depth+1)...)
+			}
+			continue
+		}
 		call, ok := f.cond.(*ssa.Call)
 		if !ok || depth > 2 {
 			continue
